@@ -50,6 +50,25 @@ pub struct Case {
 }
 
 /// Two small generated voices (2 and 3 streams) that serve as "the voice loaded before".
+/// A voice whose spectrum options set EVERY voice-derived hidden setting away from its default
+/// (LSP, GAMMA=3, LN_GAIN=1, ALPHA=0.37): whatever a later load_model does not reset shows.
+pub fn prior_lsp_log_gain_set() -> Result<jbonsai::model::VoiceSet, Failure> {
+    use std::sync::{Arc, OnceLock};
+    static V: OnceLock<Option<Arc<jbonsai::model::Voice>>> = OnceLock::new();
+    let v = V.get_or_init(|| {
+        let words: Vec<u32> = (0..6000u32).map(|j| (crate::util::hash64(&(7u32, j, 0xC03u32)) >> 16) as u32).collect();
+        let mut t = Tape::new(&words);
+        let mut spec = crate::voice::gen_voice(&mut t, GenOpts { max_depth: 2, lsp: Some(true), allow_two_streams: false, ..GenOpts::default() });
+        spec.stage = 3;
+        spec.use_log_gain = true;
+        spec.alpha = 0.37;
+        spec.streams[0].options = vec!["LN_GAIN=1".into(), "GAMMA=3".into(), "ALPHA=0.37".into()];
+        crate::engine_case::load_spec_voice(&spec).ok()
+    });
+    let pick = v.clone().ok_or_else(|| Failure::new("harness", "no LSP prior-voice fixture"))?;
+    jbonsai::model::VoiceSet::new(vec![pick]).map_err(|e| Failure::new("voiceset", e.to_string()))
+}
+
 pub fn prior_voice_set(two_streams: bool) -> Result<jbonsai::model::VoiceSet, Failure> {
     use std::sync::{Arc, OnceLock};
     static V: OnceLock<Vec<Arc<jbonsai::model::Voice>>> = OnceLock::new();
@@ -261,7 +280,8 @@ impl Prop for Synthesis {
     fn check(&self, c: &Case) -> Result<Report, Failure> {
         let (mut engine, info) = build_engine(&c.base.voice)?;
         if let Some(two) = c.prior_voice {
-            let prior = prior_voice_set(two)?;
+            // (three-stream prior: every other case uses the LSP / log-gain fixture)
+            let prior = if !two && c.base.labels.len() % 2 == 0 { prior_lsp_log_gain_set()? } else { prior_voice_set(two)? };
             let mut cond = jbonsai::Condition::default();
             if let Err(e) = cond.load_model(&prior) {
                 fail!("load-model", "Condition::load_model failed on a valid voice: {}", e);
